@@ -11,7 +11,12 @@
    any keys), optional trailing fields present only after the preceding ones, connect with its
    fixed name and transaction id 1.0, user control data valid for the body width.
    [decode_message t mt payload] is DecodeMessage on an endpoint whose outstanding-request table
-   is t; it returns the result and the table afterwards. *)
+   is t; it returns the result and the table afterwards.
+   Specification-level definitions used in the statements and not part of the model are in
+   Proofs/RtmpPacketTx.v (request_like, is_control, is_response_name, cmd_name/cmd_tid, parse_spec,
+   the abstract map amap / a_step / out_matches / refines, events ev / wf_ev / c_run / a_run,
+   skips, traffic_msg, type_hit), Proofs/RtmpPacketWf.v (clean_receiver) and
+   Proofs/RtmpPacketGen.v (parse_tbl, decode_tbl: interpreters of the generated tables). *)
 From Coq Require Import String.
 From Verif Require Import Lib.Base Lib.Sx Lib.GoSem Model.Amf0 Model.RtmpPacket.
 From Verif Require Import Gen.Gen_rtmp Proofs.Amf0 Proofs.RtmpPacket Proofs.RtmpPacketTx Proofs.RtmpPacketGen Proofs.RtmpPacketWf.
